@@ -15,7 +15,7 @@ MC_INV = {
 }
 T_MON = {
     "C05": ["M_DeliveredOrdered", "M_DeliveredFromStart", "M_DeliveredPrefix", "M_DeliveredMatchesWrite", "M_RefusedDeliversNothing",
-            "M_NoSkip", "M_NothingAfterClose", "M_CompleteAtQuiescence"],
+            "M_NoSkip", "M_NothingAfterClose", "M_CompleteAtQuiescence", "M_WatchBulkExactlyOnce"],
     "C06": ["M_ListWatchAgree", "M_ReadIsSnapshot", "M_ReadStable", "M_HeaderCoversData", "M_NoSkip", "M_DeliveredMatchesWrite", "M_CompleteAtQuiescence", "M_Converged"],
 }
 
@@ -55,6 +55,28 @@ def ring_part(work, binp, cov, quick, seed, prop):
     return 0
 
 
+def bulk_part(work, binp, cov, quick):
+    """C05 at the real constants: full sequencer batches (300) and a catch-up over more cached events than 100 batches of 300."""
+    trs = []
+    for engine, extra in (("memkv", []), ("badger", ["-big", "0", "-burst", "400"]), ("tikv", ["-big", "0", "-burst", "400"])):
+        if quick and engine == "badger":
+            continue
+        d = work.sub("watchbulk_" + engine)
+        tr = os.path.join(d, "watchbulk.ndjson"); rp = os.path.join(d, "watchbulk.json")
+        rc, out = run([binp, "watchbulk", "-out", tr, "-report", rp, "-engine", engine] + extra, env=GOENV, timeout=600)
+        if rc != 0 or not os.path.exists(rp):
+            raise Undecided("watchbulk failed (rc=%s): %s" % (rc, (out or "")[-800:]))
+        rep = json.load(open(rp))
+        if not rep.get("full_batches"):
+            raise Undecided("watchbulk on %s: the sequencer never handed out a full batch (largest %s): the scenario did not reach the boundary" % (engine, rep.get("largest_flush")))
+        cov["replay"].append(dict(engine=engine, what="sequencer held during bursts of writes on 8 goroutines: full batches of 300; watchers from before, from the middle "
+                                  "(event cache, then live), on a sub-prefix%s" % ("" if extra else "; a watcher catching up on 31000 cached events"),
+                                  writes=rep.get("writes"), watchers=rep.get("behaviours"), full_batches=rep.get("full_batches"), largest_flush=rep.get("largest_flush")))
+        log("watchbulk %s: %s writes, %s watchers, %s full batches" % (engine, rep.get("writes"), rep.get("behaviours"), rep.get("full_batches")))
+        trs.append(tr)
+    return trs
+
+
 def check_watch(prop, tier, seed):
     t0 = time.time()
     work = Work(prop)
@@ -70,6 +92,11 @@ def check_watch(prop, tier, seed):
         if not quick:
             mcs.append(("1 writer x 3 requests, 1 watcher, cache 2, buffer 2", dict(W_CONSTS, OpsPer=3, SubCap=2, WatchStarts=starts | {999})))
             mcs.append(("1 writer x 2 requests, 2 watchers", dict(W_CONSTS, OpsPer=2, Watchers={"w1", "w2"}, WatchStarts={0, 4, 5, 999}, WatchPrefixes={0}, ExpSet={0})))
+        if prop == "C05":
+            # the batch the sequencer hands to the hub is capped (300 in the code): with a cap of one and two events
+            mcs.append(("1 writer x 3 requests, 1 watcher, sequencer batches of at most 1 event", dict(W_CONSTS, OpsPer=3, EventBatch=1, WatchStarts=starts, ExpSet={0}, WatchPrefixes={0})))
+            if not quick:
+                mcs.append(("1 writer x 4 requests, 1 watcher, sequencer batches of at most 2 events", dict(W_CONSTS, OpsPer=4, EventBatch=2, SubCap=2, WatchStarts={0, 4, 5}, ExpSet={0}, WatchPrefixes={0})))
         for title, consts in mcs:
             r = run_mc(work, consts, MC_INV[prop], module="MC_Watch.tla")
             cov["states"] += r["distinct"]
@@ -126,6 +153,8 @@ def check_watch(prop, tier, seed):
         if prop == "C06":
             # the list half of list-then-watch as a process: header and data of a List with writes in flight
             alltraces += fam_write.reader_part(work, binp, cov, quick, seed)
+        if prop == "C05":
+            alltraces += bulk_part(work, binp, cov, quick)
         ntr, v = validate_all(work, alltraces, T_MON[prop], chunks=8)
         cov["traces_validated_against_impl"] = ntr
         if v:
